@@ -21,12 +21,17 @@ type orgEntry struct {
 	ver    int
 	policy string
 	fail   string // "", "404", "500", "transport"
+	alt    string // when set: a page that is no JSON document, with a Link rel="alternate" type="application/ld+json" to this URL
 }
 
 type scriptedOrigin struct {
 	mu   sync.Mutex
 	docs map[string]*orgEntry
 	reqs int
+	log  []string // URLs requested, in order
+	// the harness protects itself against a loader that follows alternate links without end: after this many requests
+	// since the last reset the origin answers with transport errors (0 = no limit)
+	budget, spent int
 }
 
 func policyHeaders(policy string, now time.Time) http.Header {
@@ -65,7 +70,18 @@ func (o *scriptedOrigin) RoundTrip(req *http.Request) (*http.Response, error) {
 	o.mu.Lock()
 	defer o.mu.Unlock()
 	o.reqs++
+	o.log = append(o.log, req.URL.String())
+	o.spent++
+	if o.budget > 0 && o.spent > o.budget {
+		return nil, errors.New("origin: request budget of the harness exhausted")
+	}
 	e, ok := o.docs[req.URL.String()]
+	if ok && e.alt != "" && e.fail == "" {
+		h := policyHeaders(e.policy, time.Now())
+		h.Set("Content-Type", "text/html")
+		h.Set("Link", fmt.Sprintf(`<%s>; rel="alternate"; type="application/ld+json"`, e.alt))
+		return &http.Response{StatusCode: 200, Body: io.NopCloser(strings.NewReader("<html><body>see the alternate</body></html>")), Header: h, Request: req}, nil
+	}
 	if !ok || e.fail == "404" {
 		return &http.Response{StatusCode: 404, Body: io.NopCloser(strings.NewReader("not found")), Header: http.Header{}, Request: req}, nil
 	}
@@ -201,7 +217,10 @@ func emitLoaderHistory(out *Out, r *Rng) {
 		}
 	}
 	ipfsURLs := []string{"ipfs://QmAAA/schema.json", "ipfs://QmBBB", "ipfs:///QmCCC/x"}
-	o := &scriptedOrigin{docs: map[string]*orgEntry{}}
+	// pages that are no JSON documents and point to one with an alternate link (to a document, to another page, to themselves)
+	pageURLs := []string{"https://ctx.example/page1", "https://pages.example/page2"}
+	altMode := r.Chance(45)
+	o := &scriptedOrigin{docs: map[string]*orgEntry{}, budget: 300}
 	loader, ve := cfg.build(o)
 	var ops []any
 	var impl []any
@@ -210,8 +229,26 @@ func emitLoaderHistory(out *Out, r *Rng) {
 		u    string
 		v    int
 		t, l int
+		via  string // the alternate target the document was obtained from ("" = served under u itself)
+	}
+	serveAlt := func(u string) {
+		targets := append(append([]string{}, urls...), pageURLs...)
+		t := targets[r.Intn(len(targets))]
+		if r.Chance(60) {
+			t = urls[r.Intn(len(urls))]
+		}
+		pol := c19Policies[r.Intn(len(c19Policies))]
+		if r.Chance(50) {
+			pol = "max-age=3600"
+		}
+		st, lt := policyOracle(pol)
+		o.mu.Lock()
+		o.docs[u] = &orgEntry{alt: t, policy: pol}
+		o.mu.Unlock()
+		ops = append(ops, J{"o": "serveAlt", "u": u, "target": t, "storable": st, "lifetime": lt, "policy": pol})
 	}
 	var received []recv
+	var shapeTags []string
 	now := 0
 	nops := 4 + r.Intn(9)
 	keyOf := func(u string) string { // where the document of u lives at the origin
@@ -239,6 +276,11 @@ func emitLoaderHistory(out *Out, r *Rng) {
 			ops = append(ops, J{"o": "serve", "u": keyOf(u), "v": 1, "storable": st, "lifetime": lt, "policy": pol})
 		}
 	}
+	if altMode {
+		for _, u := range pageURLs {
+			serveAlt(u)
+		}
+	}
 	for k := 0; k < nops; k++ {
 		x := r.Intn(100)
 		allU := append(append([]string{}, urls...), ipfsURLs...)
@@ -246,7 +288,13 @@ func emitLoaderHistory(out *Out, r *Rng) {
 		if r.Chance(70) {
 			u = urls[r.Intn(len(urls))]
 		}
+		if altMode && r.Chance(40) {
+			u = pageURLs[r.Intn(len(pageURLs))]
+		}
+		isPage := u == pageURLs[0] || u == pageURLs[1]
 		switch {
+		case x < 22 && isPage && r.Chance(70):
+			serveAlt(u)
 		case x < 22:
 			pol := c19Policies[r.Intn(len(c19Policies))]
 			st, lt := policyOracle(pol)
@@ -280,6 +328,8 @@ func emitLoaderHistory(out *Out, r *Rng) {
 			}
 			o.mu.Lock()
 			before := o.reqs
+			logFrom := len(o.log)
+			o.spent = 0
 			o.mu.Unlock()
 			doc, err := guard(5*time.Second, func() (*ld.RemoteDocument, error) {
 				d, e := loader.LoadDocument(u)
@@ -290,14 +340,48 @@ func emitLoaderHistory(out *Out, r *Rng) {
 			})
 			o.mu.Lock()
 			nreq := o.reqs - before
-			e := o.docs[keyOf(u)]
-			var cur *orgEntry
-			if e != nil {
-				c := *e
-				cur = &c
+			requested := append([]string{}, o.log[logFrom:]...)
+			snapshot := map[string]orgEntry{}
+			for k, e := range o.docs {
+				snapshot[k] = *e
 			}
 			o.mu.Unlock()
+			// what may be returned for a URL now. strict: a document stored under a page's URL is allowed only while it is
+			// still allowed for the alternate target it came from; lenient: the page's own response decides (what the code does)
+			var allowedFn func(w string, depth int, strict bool) map[int]string
+			allowedFn = func(w string, depth int, strict bool) map[int]string {
+				al := map[int]string{}
+				if depth > 14 {
+					return al
+				}
+				if e, ok := snapshot[keyOf(w)]; ok && e.fail == "" {
+					if e.alt == "" {
+						al[e.ver] = "current"
+					} else {
+						for v := range allowedFn(e.alt, depth+1, strict) {
+							al[v] = "current-through-alternate"
+						}
+					}
+				}
+				for _, rc := range received {
+					if rc.u == keyOf(w) && rc.t+rc.l > now {
+						if rc.via == "" || !strict {
+							al[rc.v] = "cached-fresh"
+						} else if _, ok := allowedFn(rc.via, depth+1, strict)[rc.v]; ok {
+							al[rc.v] = "cached-fresh"
+						}
+					}
+				}
+				if ev, ok := cfg.embedded[w]; ok {
+					al[ev] = "embedded"
+				}
+				return al
+			}
 			ops = append(ops, J{"o": "load", "u": u})
+			loadTags := []string{}
+			if nreq > 40 {
+				why = append(why, fmt.Sprintf("load %s made %d requests: alternate links are followed without bound", u, nreq))
+			}
 			if err != nil {
 				impl = append(impl, J{"err": "err", "req": nreq})
 				if errClass(err) != "err" {
@@ -307,17 +391,8 @@ func emitLoaderHistory(out *Out, r *Rng) {
 				v := docVersion(doc)
 				impl = append(impl, J{"ok": v, "req": nreq})
 				// ---- direct predicate: the allowed set, computed from the history
-				allowed := map[int]string{}
-				if cur != nil && cur.fail == "" {
-					allowed[cur.ver] = "current"
-				}
-				for _, rc := range received {
-					if rc.u == keyOf(u) && rc.t+rc.l > now {
-						allowed[rc.v] = "cached-fresh"
-					}
-				}
+				allowed := allowedFn(u, 0, true)
 				if ev, ok := cfg.embedded[u]; ok {
-					allowed[ev] = "embedded"
 					if nreq != 0 {
 						why = append(why, fmt.Sprintf("a request was made for the embedded document %s", u))
 					}
@@ -327,13 +402,22 @@ func emitLoaderHistory(out *Out, r *Rng) {
 				}
 				if _, ok := allowed[v]; !ok {
 					why = append(why, fmt.Sprintf("load %s returned version %d which is neither current nor a fresh storable response nor embedded (allowed %v, now=%d)", u, v, allowed, now))
+					if _, lenient := allowedFn(u, 0, false)[v]; lenient {
+						loadTags = append(loadTags, "shape:alternate-page-reuses-target-document")
+					} else {
+						loadTags = append(loadTags, "shape:not-allowed-at-all")
+					}
 				}
 			}
-			// bookkeeping of what the loader received in this load
-			if nreq > 0 && cur != nil && cur.fail == "" && cfg.cacheMode != "none" && !(strings.HasPrefix(u, "ipfs://") && cfg.ipfsCli) {
-				st, lt := policyOracle(cur.policy)
-				if st {
-					received = append(received, recv{keyOf(u), cur.ver, now, lt})
+			shapeTags = append(shapeTags, loadTags...)
+			// bookkeeping of what the loader received in this load: every URL requested on the way obtained the document returned
+			if err == nil && cfg.cacheMode != "none" && !(strings.HasPrefix(u, "ipfs://") && cfg.ipfsCli) {
+				for _, w := range requested {
+					if e, ok := snapshot[w]; ok && e.fail == "" {
+						if st, lt := policyOracle(e.policy); st {
+							received = append(received, recv{w, docVersion(doc), now, lt, e.alt})
+						}
+					}
 				}
 			}
 			if cfg.cacheMode == "none" && err == nil && nreq == 0 {
@@ -348,7 +432,19 @@ func emitLoaderHistory(out *Out, r *Rng) {
 			}
 		}
 	}
-	tags := []string{"cache:" + cfg.cacheMode, fmt.Sprintf("embedded:%v", len(cfg.embedded) > 0), fmt.Sprintf("ipfs:%v/%v", cfg.ipfsCli, cfg.ipfsGW != "")}
+	tags := []string{"cache:" + cfg.cacheMode, fmt.Sprintf("embedded:%v", len(cfg.embedded) > 0), fmt.Sprintf("ipfs:%v/%v", cfg.ipfsCli, cfg.ipfsGW != ""), fmt.Sprintf("alternates:%v", altMode)}
+	if len(why) > 0 {
+		// a known-finding shape only when every failure of the history has it
+		n9 := 0
+		for _, t := range shapeTags {
+			if t == "shape:alternate-page-reuses-target-document" {
+				n9++
+			}
+		}
+		if n9 == len(why) {
+			tags = append(tags, "shape:alternate-page-reuses-target-document")
+		}
+	}
 	nt := false
 	sawServeAfterLoad := false
 	loaded := false
